@@ -12,13 +12,13 @@ import (
 	"encoding/base64"
 	"encoding/hex"
 	"encoding/json"
-	"errors"
 	"flag"
 	"fmt"
 	"net/url"
 	"os"
 	"reflect"
 	"runtime"
+	"sort"
 	"strings"
 	"sync"
 	"time"
@@ -49,6 +49,30 @@ type bothPayload struct {
 	d  interface{}
 }
 
+// a pointer-receiver ID(): only the pointer has it, the value does not
+type ptrIDPayload struct {
+	V  interface{} `json:"v"`
+	id string
+}
+
+func (p *ptrIDPayload) ID() string { return p.id }
+
+// nil-safe pointer-receiver methods: a typed nil payload still has an ID() and a Data()
+type nilSafePayload struct{ X int }
+
+func (p *nilSafePayload) ID() string {
+	if p == nil {
+		return "nil-id"
+	}
+	return "set-id"
+}
+func (p *nilSafePayload) Data() interface{} {
+	if p == nil {
+		return nil
+	}
+	return p.X
+}
+
 func (p *bothPayload) ID() string        { return p.id }
 func (p *bothPayload) Data() interface{} { return p.d }
 
@@ -63,8 +87,10 @@ type Case struct {
 	Pred     int               `json:"pred"`
 	Signer   int               `json:"signer"` // 0 absent 1 ok 2 fails 3 ok with empty result
 	Tag      string            `json:"tag,omitempty"`
-	Types    []string          `json:"types"`         // hex
-	Ctx      int               `json:"ctx,omitempty"` // context handed to Process (jgen.MkContext)
+	Types    []string          `json:"types"`               // hex
+	Ctx      int               `json:"ctx,omitempty"`       // context handed to Process (jgen.MkContext)
+	ErrClass int               `json:"err_class,omitempty"` // which error value a failing signer / predicate returns (jgen.InjectedError)
+	Again    int               `json:"again,omitempty"`     // further Process calls on the SAME event (the caller clobbers the stored value in between)
 	NilEvent bool              `json:"nil_event,omitempty"`
 	Type     string            `json:"type"` // hex
 	Time     jgen.TimeSpec     `json:"time"`
@@ -79,10 +105,11 @@ type Case struct {
 
 // HStep is one call on the shared node of a history
 type HStep struct {
-	Rotate bool   `json:"rotate,omitempty"`
-	Signer int    `json:"signer,omitempty"` // Rotate: 0 nil, 1 ok, 2 fails, 3 ok with an empty result
-	Tag    string `json:"tag,omitempty"`
-	Ev     *Case  `json:"ev,omitempty"` // Process: type, time, pkind, pid, payload, pre of the event
+	Rotate   bool   `json:"rotate,omitempty"`
+	Signer   int    `json:"signer,omitempty"` // Rotate: 0 nil, 1 ok, 2 fails, 3 ok with an empty result, 4 honours the context
+	ErrClass int    `json:"err_class,omitempty"`
+	Tag      string `json:"tag,omitempty"`
+	Ev       *Case  `json:"ev,omitempty"` // Process: type, time, pkind, pid, payload, pre of the event
 }
 
 func cfgLit(c Case) string {
@@ -104,7 +131,7 @@ func runHist(c Case) (ret *retained, panics []string, fresh []string, observed [
 	for _, t := range c.Types {
 		sh.node.SignEventTypes = append(sh.node.SignEventTypes, string(jgen.Unhex(t)))
 	}
-	sh.node.Signer = mkSigner(c.Signer, jgen.Unhex(c.Tag), &sh.calls)
+	sh.node.Signer = mkSigner(c.Signer, jgen.Unhex(c.Tag), &sh.calls, c.ErrClass)
 	switch c.Pred {
 	case 1:
 		sh.node.Predicate = func(context.Context, interface{}) (bool, error) { return true, nil }
@@ -122,7 +149,7 @@ func runHist(c Case) (ret *retained, panics []string, fresh []string, observed [
 						panics = append(panics, fmt.Sprintf("case %d: Rotate at step %d: %v", c.ID, i, p))
 					}
 				}()
-				rerr = sh.node.Rotate(mkSigner(st.Signer, jgen.Unhex(st.Tag), &sh.calls))
+				rerr = sh.node.Rotate(mkSigner(st.Signer, jgen.Unhex(st.Tag), &sh.calls, st.ErrClass))
 			}()
 			order = append(order, fmt.Sprintf("HRot %d %s %s", st.Signer, jgen.Bytes(jgen.Unhex(st.Tag)), hc.B(rerr != nil)))
 			observed = append(observed, fmt.Sprintf("step %d Rotate(signer kind %d) -> err=%v", i, st.Signer, rerr))
@@ -170,6 +197,8 @@ func (em *emitter) emitHist(c Case) {
 	c.ID = em.next
 	em.next++
 	js, _ := json.Marshal(c)
+	watchCase(js)
+	defer watchCase(nil)
 	ret, panics, fresh, _ := runHist(c)
 	em.panics = append(em.panics, panics...)
 	em.fresh = append(em.fresh, fresh...)
@@ -280,9 +309,6 @@ func decodeDoc(doc []byte, m *map[string]interface{}) error {
 	return dec.Decode(m)
 }
 
-var errSign = errors.New("signer failed")
-var errPred = errors.New("predicate failed")
-
 type Obs struct {
 	Err     bool              `json:"err"`
 	ErrText string            `json:"err_text,omitempty"`
@@ -313,21 +339,31 @@ type shared struct {
 	calls [][]byte
 }
 
-func mkSigner(kind int, tag []byte, rec *[][]byte) ce.Signer {
+// inFlight lets a callback cancel the context of the call it is running in (context kind 8)
+func inFlight() {
+	if f := jgen.InFlightCancel; f != nil {
+		f()
+	}
+}
+
+func mkSigner(kind int, tag []byte, rec *[][]byte, errClass int) ce.Signer {
 	switch kind {
 	case 1:
 		return func(_ context.Context, b []byte) (string, error) {
 			*rec = append(*rec, append([]byte(nil), b...))
+			inFlight()
 			return sigFn(tag, b), nil
 		}
 	case 2:
 		return func(_ context.Context, b []byte) (string, error) {
 			*rec = append(*rec, append([]byte(nil), b...))
-			return "", errSign
+			inFlight()
+			return "", jgen.InjectedError(errClass)
 		}
 	case 3:
 		return func(_ context.Context, b []byte) (string, error) {
 			*rec = append(*rec, append([]byte(nil), b...))
+			inFlight()
 			return "", nil
 		}
 	case 4: // honours the context: refuses to sign once it is done
@@ -336,6 +372,7 @@ func mkSigner(kind int, tag []byte, rec *[][]byte) ce.Signer {
 			if err := ctx.Err(); err != nil {
 				return "", err
 			}
+			inFlight()
 			return sigFn(tag, b), nil
 		}
 	}
@@ -383,6 +420,25 @@ func runCaseOn(c Case, sh *shared) (ret *retained, obs Obs, nontrivial bool) {
 		payload = &bothPayload{id: string(pid), d: gv}
 		idLit = "(Some " + jgen.Bytes(pid) + ")"
 		dataLit = img(mv, ok, gv == nil)
+	case "idptr": // pointer-receiver ID() held by pointer: it is the payload's id
+		payload = &ptrIDPayload{V: gv, id: string(pid)}
+		idLit = "(Some " + jgen.Bytes(pid) + ")"
+		if ok {
+			dataLit = "(DVal (JObj [([118], " + mv.Lit() + ")]))"
+		} else {
+			dataLit = "DUnenc"
+		}
+	case "idptrval": // the same type held by value has no ID(): a fresh id is drawn
+		payload = ptrIDPayload{V: gv, id: string(pid)}
+		if ok {
+			dataLit = "(DVal (JObj [([118], " + mv.Lit() + ")]))"
+		} else {
+			dataLit = "DUnenc"
+		}
+	case "nilboth": // a typed nil pointer whose methods are nil-safe
+		payload = (*nilSafePayload)(nil)
+		idLit = "(Some " + jgen.Bytes([]byte("nil-id")) + ")"
+		dataLit = "DAbsent"
 	default:
 		panic("bad payload kind " + c.PKind)
 	}
@@ -419,16 +475,24 @@ func runCaseOn(c Case, sh *shared) (ret *retained, obs Obs, nontrivial bool) {
 		for _, t := range c.Types {
 			node.SignEventTypes = append(node.SignEventTypes, string(jgen.Unhex(t)))
 		}
-		node.Signer = mkSigner(c.Signer, tag, &calls)
+		node.Signer = mkSigner(c.Signer, tag, &calls, c.ErrClass)
 		switch c.Pred {
 		case 1:
 			node.Predicate = func(context.Context, interface{}) (bool, error) { return true, nil }
 		case 2:
 			node.Predicate = func(context.Context, interface{}) (bool, error) { return false, nil }
 		case 3:
-			node.Predicate = func(context.Context, interface{}) (bool, error) { predErr = true; return false, errPred }
+			node.Predicate = func(context.Context, interface{}) (bool, error) {
+				predErr = true
+				inFlight()
+				return false, jgen.InjectedError(c.ErrClass)
+			}
 		case 4:
-			node.Predicate = func(context.Context, interface{}) (bool, error) { predErr = true; return true, errPred }
+			node.Predicate = func(context.Context, interface{}) (bool, error) {
+				predErr = true
+				inFlight()
+				return true, jgen.InjectedError(c.ErrClass)
+			}
 		}
 	}
 	if sh != nil { // a step of a history: the one shared node, whatever signer is installed on it now
@@ -447,6 +511,29 @@ func runCaseOn(c Case, sh *shared) (ret *retained, obs Obs, nontrivial bool) {
 		defer release()
 		out, err = node.Process(ctx, e)
 	}()
+	for again := 0; again < c.Again && sh == nil && e != nil && obs.Panic == ""; again++ {
+		// the caller keeps the event, overwrites what was stored (when the call succeeded) and processes it again: the
+		// document must be rendered afresh from the event, whatever the table holds
+		key := "cloudevents-json"
+		if c.Format == "cloudevents-text" {
+			key = "cloudevents-text"
+		}
+		if _, has := e.Format(key); has && (err == nil || predErr) {
+			e.FormattedAs(key, []byte("clobbered by the caller"))
+		}
+		calls = nil
+		predErr = false
+		func() {
+			defer func() {
+				if p := recover(); p != nil {
+					obs.Panic = fmt.Sprint(p)
+				}
+			}()
+			ctx, release, _ := jgen.MkContext(c.Ctx)
+			defer release()
+			out, err = node.Process(ctx, e)
+		}()
+	}
 	if sh != nil {
 		calls = sh.calls
 	}
@@ -496,7 +583,7 @@ func runCaseOn(c Case, sh *shared) (ret *retained, obs Obs, nontrivial bool) {
 	}
 	// the fresh id is the oracle's answer: read it back from the emitted document
 	fresh := []byte("unobserved")
-	if (c.PKind == "plain" || c.PKind == "data") && e != nil {
+	if (c.PKind == "plain" || c.PKind == "data" || c.PKind == "idptrval") && e != nil {
 		key := "cloudevents-json"
 		if c.Format == "cloudevents-text" {
 			key = "cloudevents-text"
@@ -541,6 +628,7 @@ func runCaseOn(c Case, sh *shared) (ret *retained, obs Obs, nontrivial bool) {
 	if c.Format == "cloudevents-text" {
 		ret.key = "cloudevents-text"
 	}
+	ret.frame, ret.errs = frameOf(e, ret.key), jgen.ErrorsIn(payload)
 	if e != nil {
 		if v, has := e.Format(ret.key); has {
 			ret.has = true
@@ -567,6 +655,29 @@ type retained struct {
 	later    int // ... after which a change was first seen (0: none)
 	final    []byte
 	finalHas bool
+	frame    string       // type, time, deep payload snapshot and every other entry of the table right after the call
+	errs     []jgen.ErrAt // the error values in the payload
+	moved    bool         // ... were found changed at a later re-read
+}
+
+// frameOf: everything of the event except the entry under key
+func frameOf(e *el.Event, key string) string {
+	if e == nil {
+		return ""
+	}
+	var sb strings.Builder
+	fmt.Fprintf(&sb, "%x|%d|%s|%s|", string(e.Type), e.CreatedAt.UnixNano(), e.CreatedAt.Location(), jgen.Snapshot(e.Payload))
+	names := make([]string, 0, len(e.Formatted))
+	for k := range e.Formatted {
+		if k != key {
+			names = append(names, k)
+		}
+	}
+	sort.Strings(names)
+	for _, k := range names {
+		fmt.Fprintf(&sb, "%q=%x nil=%v;", k, e.Formatted[k], e.Formatted[k] == nil)
+	}
+	return sb.String()
 }
 
 func (r *retained) recheck(calls int) {
@@ -575,6 +686,9 @@ func (r *retained) recheck(calls int) {
 	}
 	if r.whole || r.ev == nil {
 		return
+	}
+	if !r.moved && (frameOf(r.ev, r.key) != r.frame || !jgen.SameErrors(r.errs, jgen.ErrorsIn(r.ev.Payload))) {
+		r.moved = true
 	}
 	r.since += calls
 	if r.later != 0 {
@@ -601,10 +715,11 @@ func (r *retained) lit() string {
 	return r.head + r.record()
 }
 func (r *retained) record() string {
+	still := "; b_still := " + hc.B(!r.moved)
 	if r.later == 0 {
-		return r.prefix + "; b_final := None; b_later := 0 |} |}" // re-read and equal to the private copy every time
+		return r.prefix + still + "; b_final := None; b_later := 0 |} |}" // re-read and equal to the private copy every time
 	}
-	return r.prefix + fmt.Sprintf("; b_final := (Some %s); b_later := %d |} |}", jgen.OptBytes(r.final, r.finalHas), r.later)
+	return r.prefix + still + fmt.Sprintf("; b_final := (Some %s); b_later := %d |} |}", jgen.OptBytes(r.final, r.finalHas), r.later)
 }
 
 var churnPayloads = []interface{}{"", "x", strings.Repeat("z", 700), map[string]interface{}{"k": []interface{}{1, "two", nil}}, strings.Repeat("<&>\n", 40), 12345}
@@ -665,10 +780,42 @@ type emitter struct {
 	fresh   []string
 }
 
+// watchdog: a call that does not return is a finding, with the case as replay
+var watch struct {
+	sync.Mutex
+	js    []byte
+	since time.Time
+	out   string
+}
+
+func watchCase(js []byte) {
+	watch.Lock()
+	watch.js, watch.since = js, time.Now()
+	watch.Unlock()
+}
+func startWatchdog(out string) {
+	watch.out = out
+	go func() {
+		for {
+			time.Sleep(time.Second)
+			watch.Lock()
+			js, since := watch.js, watch.since
+			watch.Unlock()
+			if js != nil && time.Since(since) > 30*time.Second {
+				os.WriteFile(watch.out+"/hang.json", js, 0o644)
+				fmt.Printf("HANG: a Process call did not return within 30 s; case: %s\n", js)
+				os.Exit(4)
+			}
+		}
+	}()
+}
+
 func (em *emitter) emit(c Case) {
 	c.ID = em.next
 	em.next++
 	js, _ := json.Marshal(c)
+	watchCase(js)
+	defer watchCase(nil)
 	ret, obs, nt := runCase(c)
 	if obs.Panic != "" {
 		em.panics = append(em.panics, fmt.Sprintf("case %d: %s", c.ID, obs.Panic))
@@ -855,6 +1002,114 @@ func genGrid(em *emitter) {
 	}
 }
 
+// the input classes of notes/value_classes.md that C18's statement speaks about, one axis at a time around a signed,
+// listed, valid base case
+func genAudit(em *emitter) {
+	base := func() Case {
+		return Case{Gen: "grid-audit", Source: "https://src.example", Signer: 1, Tag: hx("S-"), Types: []string{hx("t")}, Type: hx("t"), Time: jgen.Times[1],
+			PKind: "plain", Payload: simpleMap}
+	}
+	long := strings.Repeat("L", 300)
+	// Source and Schema of every URL shape (String() of the parsed URL is the model's token); empty and nil are rejected
+	urls := []string{"urn:uuid:6e8bc430-9c3a-11d9-9669-0800200c9a66", "mailto:ops@example.com", "//host.example", "https://host.example", "https://host.example/",
+		"/path/only", "path-only", "https://h.example/p?q=1&r=<x>#frag", "?q=only", "#frag", "https://[::1]:8443/p", "https://user:pw@h.example/p",
+		"https://h.example/a%20b/%E2%82%AC", "https://h.example/é", "HTTPS://UPPER.example/P", "https://h.example/" + long, "<empty>", ""}
+	for i, u := range urls {
+		c := base()
+		c.Source, c.Format = u, []string{"", "cloudevents-text"}[i%2]
+		em.emit(c)
+		c = base()
+		c.Schema, c.Format = u, []string{"cloudevents-text", ""}[i%2]
+		em.emit(c)
+	}
+	// formats: the two names, unset, and look-alike spellings (all invalid)
+	for _, f := range []string{"", "cloudevents-json", "cloudevents-text", "cloudevents-JSON", "cloudevents-json ", " cloudevents-text", "json", "text", "cloudevents-text\n", "cloudevents", "Cloudevents-Text"} {
+		c := base()
+		c.Format = f
+		em.emit(c)
+	}
+	// SignEventTypes: look-alikes of the event type must NOT be signed; nil / empty / duplicates / empty element
+	for _, types := range [][]string{nil, {}, {hx("T")}, {hx("t ")}, {hx(" t")}, {hx("t\x00")}, {hx("τ")}, {hx("tt")}, {hx("")}, {hx("t"), hx("x"), hx("t")}, {hx("x"), hx("t"), hx("t")}, {hx(""), hx("t")}} {
+		c := base()
+		c.Types = types
+		em.emit(c)
+		c.Format = "cloudevents-text"
+		c.Signer = 2
+		em.emit(c)
+	}
+	for _, tc := range []struct{ ty, listed string }{{"tt", "t"}, {"t", "tt"}, {long, long}, {long, long + "x"}, {long + "x", long}, {"", ""}, {" ", ""}, {"T", "t"}, {"t\x00", "t"}} {
+		c := base()
+		c.Type, c.Types = hx(tc.ty), []string{hx("zz"), hx(tc.listed)}
+		em.emit(c)
+	}
+	// ids from the payload: empty (rejected), blank, short, long, non-ASCII, one that looks generated, with NUL / quotes; the
+	// pointer-receiver ID() held by pointer and by value; a typed nil payload with nil-safe methods
+	for i, id := range []string{"", " ", "a", long, "ïd-é日", "0123456789", "aB3dE6gH9j", "id\x00", "id\"<&>", "\xff\xfe"} {
+		for _, pk := range []string{"id", "both", "idptr", "idptrval"} {
+			c := base()
+			c.PKind, c.PID, c.Format = pk, hx(id), []string{"", "cloudevents-text"}[i%2]
+			em.emit(c)
+		}
+	}
+	for _, f := range []string{"", "cloudevents-text"} {
+		c := base()
+		c.PKind, c.Format = "nilboth", f
+		em.emit(c)
+	}
+	// data: every value class encoding/json renders specially, as the payload, as Data() and under an ID payload; typed nils
+	for i, k := range jgen.SpecialKinds {
+		for _, pk := range []string{"plain", "data", "id"} {
+			c := base()
+			c.PKind, c.PID, c.Payload, c.Format = pk, hx("i"), &jgen.Recipe{K: "special", V: k}, []string{"", "cloudevents-text"}[i%2]
+			em.emit(c)
+		}
+	}
+	for _, t := range []string{"ptr", "map", "slice", "bytes", "iface"} {
+		c := base()
+		c.PKind, c.Payload = "data", &jgen.Recipe{K: "nil", T: t}
+		em.emit(c)
+	}
+	// error values of every class from the signer and from the predicate
+	for ec := 0; ec < jgen.ErrClasses; ec++ {
+		for _, f := range []string{"", "cloudevents-text"} {
+			c := base()
+			c.Signer, c.ErrClass, c.Format = 2, ec, f
+			em.emit(c)
+			c.Pred = 3
+			em.emit(c)
+			c = base()
+			c.Pred, c.ErrClass, c.Format = 3+ec%2, ec, f
+			em.emit(c)
+			c.Signer = 0
+			em.emit(c)
+		}
+	}
+	// signer results: very long, non-ASCII / invalid UTF-8, with quotes
+	for _, tag := range []string{strings.Repeat("s", 1000), strings.Repeat("é", 600), "\xff\xc3", "\"\\<>&\n", strings.Repeat("x", 5000)} {
+		c := base()
+		c.Tag = hx(tag)
+		em.emit(c)
+	}
+	// creation times: zero, epoch, far future, sub-second digits, zones; out of range
+	for i, t := range append(append([]jgen.TimeSpec{}, jgen.Times...), jgen.BadTimes...) {
+		c := base()
+		c.Time, c.Format = t, []string{"", "cloudevents-text"}[i%2]
+		em.emit(c)
+	}
+	// the same event processed again (the caller clobbered the stored document in between)
+	for again := 1; again <= 2; again++ {
+		for _, signer := range []int{0, 1, 2, 4} {
+			for _, pred := range []int{0, 2, 3} {
+				for _, pk := range []string{"plain", "id"} {
+					c := base()
+					c.Again, c.Signer, c.Pred, c.PKind, c.PID, c.Ctx = again, signer, pred, pk, hx("i"), []int{0, 8}[again%2]
+					em.emit(c)
+				}
+			}
+		}
+	}
+}
+
 func genRandom(em *emitter, r *hc.Rand, n, depth int) {
 	g := &jgen.Gen{R: r, Stats: em.stats}
 	for i := 0; i < n; i++ {
@@ -880,8 +1135,12 @@ func genRandom(em *emitter, r *hc.Rand, n, depth int) {
 			c.Types = []string{hx("zz"), c.Type}
 		}
 		c.Time = jgen.GenTime(r)
-		c.PKind = []string{"plain", "id", "data", "both"}[r.Intn(4)]
-		if c.PKind == "id" || c.PKind == "both" {
+		c.PKind = []string{"plain", "id", "data", "both", "idptr", "idptrval", "nilboth"}[r.Intn(7)]
+		c.ErrClass = r.Intn(jgen.ErrClasses)
+		if r.Chance(1, 6) {
+			c.Again = 1 + r.Intn(2)
+		}
+		if c.PKind == "id" || c.PKind == "both" || c.PKind == "idptr" || c.PKind == "idptrval" {
 			if r.Chance(1, 8) {
 				c.PID = ""
 			} else {
@@ -1246,6 +1505,7 @@ func main() {
 		panic(err)
 	}
 	em := &emitter{cf: cf, side: side, stats: map[string]int{}, sigs: map[string]bool{}}
+	startWatchdog(*out)
 	r := hc.NewRand(hc.Seed())
 	if *corpus != "" {
 		runCorpus(em, *corpus)
@@ -1254,6 +1514,7 @@ func main() {
 		switch m {
 		case "grid":
 			genGrid(em)
+			genAudit(em)
 		case "random":
 			genRandom(em, r.Fork(), *nRandom, *depth)
 		case "conc":
